@@ -74,6 +74,12 @@ func (s *CollapsingHighestDenseStore) extendRange(newMinIndex, newMaxIndex int) 
 	if s.IsEmpty() {
 		initialLength := s.getNewLength(newMinIndex, newMaxIndex)
 		s.bins = append(s.bins, make([]float64, initialLength)...)
+		if newMaxIndex-newMinIndex+1 > initialLength {
+			// The range is wider than the store: the store being empty, there is nothing to
+			// move, the highest indices will be collapsed as they are added.
+			newMaxIndex = newMinIndex + initialLength - 1
+			s.isCollapsed = true
+		}
 		s.offset = newMinIndex
 		s.minIndex = newMinIndex
 		s.maxIndex = newMaxIndex
